@@ -21,6 +21,32 @@ def vocab():
     return _vocab
 
 
+def _pure_single_def(cj, l):
+    """local l of a helper has one definition and that definition does not read memory behind a pointer: expanding it where it
+    is used cannot move a read across a store (a snapshot such as `let start = self.absolute_pos` keeps its name)"""
+    defs = []
+    for blk in cj['blocks']:
+        for st in blk['stmts']:
+            if st['k'] == 'assign' and st['p']['l'] == l:
+                if st['p']['pr']:
+                    return False
+                defs.append(('assign', st['r']))
+        t = blk['term']
+        if t['k'] == 'call' and t['dest']['l'] == l:
+            if t['dest']['pr']:
+                return False
+            defs.append(('call', t))
+    if len(defs) != 1:
+        return False
+    kind, r = defs[0]
+    # only a binding of (a part of) another local's value: `Some(i) => ..`, `let m = cand.0`; a call result may depend on
+    # memory through its arguments and stays a named snapshot
+    if kind != 'assign' or r.get('k') != 'use':
+        return False
+    a = r.get('a')
+    return isinstance(a, dict) and a.get('k') in ('copy', 'move') and '*' not in a['p']['pr'] and not any(isinstance(x, dict) and 'idx' in x for x in a['p']['pr'])
+
+
 def _remap_place(p, loff):
     q = {'l': p['l'] + loff, 'pr': []}
     for pr in p['pr']:
@@ -136,7 +162,7 @@ def inline_json(facts, j, should_inline, depth, stack):
             l = dict(l)
             # locals of a spliced helper are anonymous: no rule can know their names, and a name would stop the term
             # reconstruction at a spelling chosen by the refactoring (single-definition locals expand like temporaries)
-            if i <= cj['arg_count'] or ANON_HELPER_LOCALS:
+            if i <= cj['arg_count'] or (ANON_HELPER_LOCALS and _pure_single_def(cj, i)):
                 if l.get('names'):
                     l['helper_names'] = l['names']
                 l['names'] = []
